@@ -12,8 +12,11 @@
 (*   store[s] [b, u, e, txt, saved, ...] : the source's schema, abstracted *)
 (*            to the sequence b of its base sets (each an origin token     *)
 (*            <<source, k>>: the k-th base set ever created in that        *)
-(*            source), u inherited derived terms, e terms the user added   *)
-(*            to this result, a text revision; saved = no change is        *)
+(*            source), the sets u of inherited and e of own user-added     *)
+(*            terms (each identified by the pictogram it was added to; a   *)
+(*            term arriving along two paths is one constituent: equal      *)
+(*            non-empty definitions are merged), a text revision; saved =  *)
+(*            no change is                                                 *)
 (*            waiting to be announced; locked = the environment refuses    *)
 (*            to write new data into it                                    *)
 (* The formal content (what the core hash covers: aliases + definitions)   *)
@@ -131,7 +134,7 @@ LoadPosition(S, p, pos) == IF CanLoadPosition(S, p, pos) THEN [S EXCEPT !.cell[p
 ConnectNew(S, p, s, n0) ==
   IF p \notin Picts(S) THEN S
   ELSE LET S0 == Sync(S, p)          \* a previously attached source is saved and closed
-           S1 == [S0 EXCEPT !.store = (s :> [b |-> [k \in 1..n0 |-> <<s, k>>], ax |-> [k \in 1..n0 |-> k], nextk |-> n0 + 1, u |-> 0, e |-> 0, txt |-> 0, saved |-> TRUE, locked |-> FALSE]) @@ S0.store,
+           S1 == [S0 EXCEPT !.store = (s :> [b |-> [k \in 1..n0 |-> <<s, k>>], ax |-> [k \in 1..n0 |-> k], nextk |-> n0 + 1, u |-> {}, e |-> {}, txt |-> 0, saved |-> TRUE, locked |-> FALSE]) @@ S0.store,
                             !.hand[p] = [name |-> s, hash |-> S0.hand[p].hash, linked |-> TRUE]]
            new == Core(S1, s)
            S2 == [S1 EXCEPT !.hand[p].hash = new]
@@ -143,7 +146,7 @@ CanEdit(S, p, kind) ==
        [] kind = "removeBase" -> ~IsOp(S, p) /\ Len(DataOf(S, p).b) >= 2
        [] kind = "removeFirst" -> ~IsOp(S, p) /\ Len(DataOf(S, p).b) >= 2
        [] kind = "text" -> Len(DataOf(S, p).b) >= 1 /\ ~S.labelled
-       [] kind = "userTerm" -> IsOp(S, p) /\ DataOf(S, p).e = 0 /\ Len(DataOf(S, p).b) >= 1
+       [] kind = "userTerm" -> IsOp(S, p) /\ DataOf(S, p).e = {} /\ Len(DataOf(S, p).b) >= 1
 Edit(S, p, kind) ==
   LET s == S.hand[p].name IN
   CASE kind = "addBase" -> [S EXCEPT !.store[s].b = Append(@, <<s, S.store[s].nextk>>), !.store[s].ax = Append(@, SmallestFree(@)),
@@ -151,7 +154,7 @@ Edit(S, p, kind) ==
     [] kind = "removeBase" -> [S EXCEPT !.store[s].b = SubSeq(@, 1, Len(@) - 1), !.store[s].ax = SubSeq(@, 1, Len(@) - 1), !.store[s].saved = FALSE]
     [] kind = "removeFirst" -> [S EXCEPT !.store[s].b = Tail(@), !.store[s].ax = Tail(@), !.store[s].saved = FALSE]
     [] kind = "text" -> [S EXCEPT !.store[s].txt = @ + 1, !.store[s].saved = FALSE]
-    [] kind = "userTerm" -> [S EXCEPT !.store[s].e = 1, !.store[s].saved = FALSE]
+    [] kind = "userTerm" -> [S EXCEPT !.store[s].e = {p}, !.store[s].saved = FALSE]
 \* the environment makes the source of p read-only
 Lock(S, p) == IF p \in Picts(S) /\ HasData(S, p) THEN [S EXCEPT !.store[S.hand[p].name].locked = TRUE] ELSE S
 \* the source manager announces the pending change of p's source
@@ -205,8 +208,8 @@ Execute(S, p, newSrc, autoDiscard) ==
   ELSE
     LET d1 == DataOf(S1, S1.par[p][1])  d2 == DataOf(S1, S1.par[p][2])
         S2 == IF HasData(S1, p) THEN Sync(S1, p) ELSE S1                    \* AggregateVersions saves the old result first
-        carried == IF HasData(S2, p) THEN DataOf(S2, p).e ELSE 0            \* the user's own additions are carried over
-        content == [b |-> SynthBases(S2, p), ax |-> [k \in 1..Len(SynthBases(S2, p)) |-> k], nextk |-> 1, u |-> d1.u + d1.e + d2.u + d2.e, e |-> carried,
+        carried == IF HasData(S2, p) THEN DataOf(S2, p).e ELSE {}           \* the user's own additions are carried over
+        content == [b |-> SynthBases(S2, p), ax |-> [k \in 1..Len(SynthBases(S2, p)) |-> k], nextk |-> 1, u |-> d1.u \cup d1.e \cup d2.u \cup d2.e, e |-> carried,
                     txt |-> 0, saved |-> TRUE, locked |-> FALSE]
         s == IF HasData(S2, p) THEN S2.hand[p].name ELSE newSrc[p]
         oldHash == S2.hand[p].hash
@@ -241,7 +244,7 @@ Structure(S) ==
 AllSaved(S) == \A p \in Picts(S) : S.hand[p].linked => S.store[S.hand[p].name].saved
 Expected(S, p) ==
   LET d1 == DataOf(S, S.par[p][1])  d2 == DataOf(S, S.par[p][2]) IN
-  <<Len(SynthBases(S, p)), d1.u + d1.e + d2.u + d2.e>>
+  <<Len(SynthBases(S, p)), d1.u \cup d1.e \cup d2.u \cup d2.e>>
 \* a parent re-connected to another source with the same formal content leaves the operation done although its table names base
 \* sets of the old source (the statement speaks of changes that alter the formal content): such operations are not judged
 TableLive(S, p) == S.oper[p].table >= 1 => (InSeq(S.oper[p].tkey[1], DataOf(S, S.par[p][1]).b) /\ InSeq(S.oper[p].tkey[2], DataOf(S, S.par[p][2]).b))
@@ -292,5 +295,5 @@ View(S) ==
               THEN (IF /\ S.oper[p].tkey # <<NoTok, NoTok>> /\ HasData(S, S.par[p][1]) /\ HasData(S, S.par[p][2])
                        /\ InSeq(S.oper[p].tkey[1], DataOf(S, S.par[p][1]).b) /\ InSeq(S.oper[p].tkey[2], DataOf(S, S.par[p][2]).b)
                     THEN <<Label(S.oper[p].tkey[1]), Label(S.oper[p].tkey[2])>> ELSE <<"dangling">>)
-              ELSE <<>>, terms |-> IF HasData(S, p) THEN DataOf(S, p).u + DataOf(S, p).e ELSE 0]]
+              ELSE <<>>, terms |-> IF HasData(S, p) THEN Cardinality(DataOf(S, p).u \cup DataOf(S, p).e) ELSE 0]]
 =============================================================================
